@@ -397,7 +397,8 @@ func c05Run(t *testing.T, c *c05Close, height uint32,
 
 	// validated[op] = witness type of the validated spend of op.
 	validated := map[wire.OutPoint]string{}
-	secondLevelOuts := map[wire.OutPoint]bool{}
+	// second-level output -> the commitment output it stems from
+	secondLevelOuts := map[wire.OutPoint]wire.OutPoint{}
 	var violations []error
 
 	// verify runs the interpreter on tx input 0 against the actual
@@ -510,7 +511,7 @@ func c05Run(t *testing.T, c *c05Close, height uint32,
 			}
 			stats.negControls++
 		}
-		if secondLevelOuts[op] {
+		if _, ok := secondLevelOuts[op]; ok {
 			stats.secondLevelSweeps++
 		}
 		if spent {
@@ -521,7 +522,7 @@ func c05Run(t *testing.T, c *c05Close, height uint32,
 		if inp.RequiredTxOut() != nil {
 			// A second-level HTLC transaction: its output at the
 			// input's index must be swept by a later input.
-			secondLevelOuts[wire.OutPoint{Hash: tx.TxHash(), Index: 0}] = true
+			secondLevelOuts[wire.OutPoint{Hash: tx.TxHash(), Index: 0}] = op
 		}
 
 		return tx, nil
@@ -693,7 +694,10 @@ func c05Run(t *testing.T, c *c05Close, height uint32,
 	}
 	// Every second-level output created by a sweeper-driven first stage
 	// must have been swept by a validated second stage.
-	for op := range secondLevelOuts {
+	for op, parent := range secondLevelOuts {
+		if _, must := want[parent]; !must {
+			continue
+		}
 		if _, ok := validated[op]; !ok {
 			return fail("second-level output %v was never swept", op)
 		}
